@@ -146,6 +146,14 @@ func verifPoint(f *Feed, point string, ch reflect.Value) {
 			ch = ch.Elem()
 		}
 	}
+	if ch.IsValid() && ch.Kind() == reflect.Int { // an index (select_index), not a channel
+		t.mu.Lock()
+		t.events = append(t.events, VerifEvent{g, point, -1, int(ch.Int())})
+		r := t.next()
+		t.mu.Unlock()
+		t.pause(r)
+		return
+	}
 	t.mu.Lock()
 	if ch.IsValid() && ch.CanInterface() {
 		if i, ok := t.chans[ch.Interface()]; ok {
